@@ -47,6 +47,7 @@ TYPES = [
     _t("NUMBER", "fixed0", p=38, s=0),
     _t("NUMBER(38,0)", "fixed0", p=38, s=0),
     _t("NUMBER(20)", "fixed0", p=20, s=0),
+    _t("NUMBER(10,0)", "fixed0", p=10, s=0),  # more than 32 bit, less than 64
     _t("DECIMAL", "fixed0", p=38, s=0),
     _t("NUMERIC", "fixed0", p=38, s=0),
     _t("INT", "fixed0", p=38, s=0),
@@ -113,7 +114,7 @@ I64_MAX = 2**63 - 1
 
 def _fixed0_values(p):
     big = 10**p - 1
-    return [
+    out = [
         ("zero", 0),
         ("one", 1),
         ("neg_one", -1),
@@ -127,6 +128,7 @@ def _fixed0_values(p):
         ("max_precision", big),
         ("min_precision", -big),
     ]
+    return [(k, v) for k, v in out if abs(v) <= big]  # only what the declared precision can hold
 
 
 def _fixedS_values(p, s):
